@@ -20,10 +20,9 @@ when the centre of the box starts exactly on a grid line or a grid point, moves 
   before a step, then every in-field cell of the shifted block is in the trace after it (the new row and the new column are
   tested along the whole current range).
 
-Not proved (`walk_covers_full`): that the block `range_i × range_j` around the centre's cell contains the footprint of the
-box at every time the centre is in that cell (needs the rounding-free relation between `quantize_floor/ceil` of the box
-corners and of the centre), and hence the end-to-end statement "every cell the box enters before `max_time_of_impact` is in
-the trace".  That statement is checked on every generated case by the exact oracle of `hfwalk3`.
+`walk_covers_full` (the end-to-end statement "every cell the box enters before `max_time_of_impact` is in the trace") is stated here and
+proved in `Theorems6.lean` (`walk_covers_full_generic`, every velocity); it is also checked on every generated case by the exact
+oracle of `hfwalk3`.
 -/
 namespace C06
 open Model Model.HW
@@ -341,7 +340,7 @@ theorem walk_break_maxToi_sound (q : Quant K) (hq : LawfulQuant q) (h : HF3 K) (
   intro u hu1 hu2
   exact ⟨ax2 u hu1 (le_trans hu2 (le_of_lt hbx)), az2 u hu1 (le_trans hu2 (le_of_lt hbz))⟩
 
-/-- The end-to-end statement that is NOT proved here: whenever the (loosened) box of the moving shape, translated by `t·vel`
+/-- The end-to-end statement (NOT proved in this file; proved in `Theorems6.lean`, `walk_covers_full_generic`, for every velocity): whenever the (loosened) box of the moving shape, translated by `t·vel`
 for some `t ∈ [0, max_time_of_impact]`, overlaps the open rectangle of an in-field cell `(i, j)` (and the vertical range of
 the field), the trace of the walk contains `(i, j)`.  Proved parts: the cell always moves (`cellMove_clamped_moves`), the
 walk follows the centre ray cell by cell (`walkStep_tracks_ray`, `cellAtPoint_contains`), the block of ranges around the
